@@ -122,6 +122,7 @@ func main() {
 		say("ERR SubscribeToEvents %v", err)
 		close(subDone)
 	} else {
+		seenVersions := map[string]map[int64]bool{}
 		go func() {
 			defer close(subDone)
 			for {
@@ -138,6 +139,18 @@ func main() {
 				if t.UpdatedBy != nil {
 					ub = *t.UpdatedBy
 				}
+				// every versioned Set stores a fresh version and emits one New/Modified event whose
+				// record is converted inside that writer's guarded section: no two events of a key
+				// carry the same version
+				seenV := seenVersions[t.Key]
+				if seenV == nil {
+					seenV = map[int64]bool{}
+					seenVersions[t.Key] = seenV
+				}
+				if seenV[*t.Int64Val] {
+					say("EDUP key=%s value=%d updatedBy=%q", t.Key, *t.Int64Val, ub)
+				}
+				seenV[*t.Int64Val] = true
 				if ub != strconv.FormatInt(*t.Int64Val, 10) {
 					say("ETORN key=%s value=%d updatedBy=%q", t.Key, *t.Int64Val, ub)
 				} else if atomic.AddInt64(&esampled, 1) <= 150 {
